@@ -1,5 +1,5 @@
 \* C01 quick: simulated long add histories
-\* run by hand:  cd spec && tlc -workers 8 RunGenSketch.tla -config cfg/C01__RunGenSketch__simulated_long_add_histories.cfg -simulate num=375 -depth 13 -seed 2   (root module generated by the harness: see the .tla file next to this one; copy it to spec/ first)
+\* run by hand:  cd spec && tlc -workers 8 RunGenSketch.tla -config cfg/C01__RunGenSketch__simulated_long_add_histories.cfg -simulate num=375 -depth 13 -seed 1   (root module generated by the harness: see the .tla file next to this one; copy it to spec/ first)
 INIT GenInit
 NEXT GenNext
 CONSTANTS
